@@ -121,7 +121,9 @@ def it_next(vm, it):
         if pos >= len(cs): return None
         a[1] += 1; return (cs[pos],)
     if k == 'symchars':
-        raise Unmodelled('element-wise iteration over an opaque symbolic string')
+        from .std_str import as_bounded_iter
+        as_bounded_iter(vm, it)
+        return it_next(vm, it)
     if k == 'range':
         lo, hi = a
         if isinstance(lo, int) and isinstance(hi, int):
